@@ -1270,12 +1270,19 @@ pub fn generate(rng: &mut Rng, tier: Tier, emit: &mut dyn FnMut(String)) {
         (vec![0], "Int32Type"),
         (vec![1, 65535, 65535], "Int32Type"),
         (vec![65535, 0], "Int32Type"),
+        (vec![5], "LongType"),
+        (vec![3], "Int32Type"),
+        (vec![2, 3], "Int32Type"),
+        (vec![65535], "Int32Type"),
+        (vec![3], "UTF8Type"),
     ] {
         let mut s = inner.to_owned();
         for d in dims {
             s = format!("VectorType({}, {})", s, d);
         }
-        for cell in [&[0u8][..], &[][..], &[0, 0, 0, 1, 0, 0, 0, 2][..]] {
+        let c40: Vec<u8> = (0..40u8).collect();
+        let c24: Vec<u8> = (0..24u8).collect();
+        for cell in [&[0u8][..], &[][..], &[0, 0, 0, 1, 0, 0, 0, 2][..], &c40[..], &c24[..], &c24[..12], &[1, b'a', 1, b'b', 1, b'c'][..]] {
             let mut b = B::default();
             b.int(2);
             b.int(1);
